@@ -291,6 +291,10 @@ func NewChain(keys *Keys, g Genesis) (*Chain, *abci.ResponseInitChain, error) {
 	valParams := *consParams.Validator
 	valParams.PubKeyTypes = []string{"ed25519", "secp256k1"}
 	consParams.Validator = &valParams
+	// a short evidence window, so that histories reach x/evidence's staleness rule (Model/Slashing.v: ev_max_age_*)
+	evParams := *consParams.Evidence
+	evParams.MaxAgeNumBlocks, evParams.MaxAgeDuration = evMaxAgeBlocks, evMaxAgeSecs*time.Second
+	consParams.Evidence = &evParams
 	resp, err := app.InitChain(&abci.RequestInitChain{
 		ChainId: chainID, Time: t0, InitialHeight: 1, ConsensusParams: &consParams, AppStateBytes: stateBytes,
 	})
@@ -382,8 +386,13 @@ func cometErrClass(err error) string {
 	return "other:" + s
 }
 
+const (
+	evMaxAgeBlocks = 6
+	evMaxAgeSecs   = 30
+)
+
 // RunBlock executes one block: dt seconds later, votes from V(H-1) with the given absentees.
-func (c *Chain) RunBlock(dt int64, absentCons map[string]bool, txs [][]byte) (res *BlockResult) {
+func (c *Chain) RunBlock(dt int64, absentCons map[string]bool, evs []EvSpec, txs [][]byte) (res *BlockResult) {
 	res = &BlockResult{Comet: "ok"}
 	if c.Halted != "" {
 		res.Halt = c.Halted
@@ -405,7 +414,17 @@ func (c *Chain) RunBlock(dt int64, absentCons map[string]bool, txs [][]byte) (re
 	if c.Cur != nil && len(c.Cur.Validators) > 0 {
 		proposer = c.Cur.Validators[0].Address
 	}
-	req := &abci.RequestFinalizeBlock{Height: h, Time: t, Txs: txs, DecidedLastCommit: abci.CommitInfo{Votes: votes},
+	var misb []abci.Misbehavior
+	for _, e := range evs {
+		var total int64
+		if c.Cur != nil {
+			total = c.Cur.TotalVotingPower()
+		}
+		misb = append(misb, abci.Misbehavior{Type: abci.MisbehaviorType_DUPLICATE_VOTE,
+			Validator: abci.Validator{Address: c.Keys.Pool[e.Cons].Cons.Bytes(), Power: e.Power},
+			Height:    e.Height, Time: time.Unix(genesisUnix+e.Time, 0).UTC(), TotalVotingPower: total})
+	}
+	req := &abci.RequestFinalizeBlock{Height: h, Time: t, Txs: txs, DecidedLastCommit: abci.CommitInfo{Votes: votes}, Misbehavior: misb,
 		Hash: []byte(fmt.Sprintf("blk-%d", h)), ProposerAddress: proposer, NextValidatorsHash: c.Next.Hash()}
 	var resp *abci.ResponseFinalizeBlock
 	err := catch(func() error {
